@@ -199,6 +199,8 @@ def run(rep, tier, seed):
             sep = prnd.choice([" ", "", " "])
             if k[0] in "zZ":
                 d += sep + k[0]
+            elif k[0] in "Bb":
+                d += f"{sep}{k[0]}{prnd.choice(['', ' '])}{k[1]}"
             elif k[0] in "hHvV":
                 d += f"{sep}{k[0]}{prnd.choice(['', ' '])}{n(k[1])}"
             else:
@@ -228,6 +230,9 @@ def run(rep, tier, seed):
             vb = []
         if len(vb) != 4 or any(abs(g - w) > 0.0015 for g, w in zip((vb[0], vb[1], vb[0] + vb[2], vb[1] + vb[3]), want)):
             return ("pathbox:viewBox", f"viewBox {root.attrs.get('viewBox')!r}; the path machine of the specification gives the box {e} (viewBox corners {want})")
+        for el in vlib.elements(root):
+            if el.name == "path" and any(ch in el.attrs.get("d", "") for ch in "Bb"):
+                return ("pathbox:bearing-left", f"bearing commands are not SVG path data, yet the output has d={el.attrs.get('d')!r}")
         pr = geom.find_by_id(resp["out"], "probe")
         if pr is not None:
             got = (float(pr.attrs.get("x", 0)), float(pr.attrs.get("y", 0)), float(pr.attrs.get("width", 0)), float(pr.attrs.get("height", 0)))
